@@ -4,6 +4,9 @@ import (
 	"strings"
 
 	"google.golang.org/protobuf/compiler/protogen"
+	"google.golang.org/protobuf/types/descriptorpb"
+
+	"github.com/SebastienMelki/sebuf/http"
 
 	verif "github.com/SebastienMelki/sebuf/internal/zzverif"
 )
@@ -41,9 +44,28 @@ func VerifC20MockTree() {
 		c20Ref(resp, "total", money)
 		want = append(want, "resp.Total.Currency = ")
 	}
+	// declared examples on leaves of the tree; the same message types may also be the request
+	// of another method of the file (a message is not either "a request" or "a response")
+	verif.SetExt(money.Fields[0].Desc.Options().(*descriptorpb.FieldOptions), http.E_FieldExamples, &http.FieldExamples{Values: []string{"USD", "EUR"}})
+	verif.SetExt(address.Fields[0].Desc.Options().(*descriptorpb.FieldOptions), http.E_FieldExamples, &http.FieldExamples{Values: []string{"Paris"}})
 	svc, req := c20Service("Order", resp)
+	times := 1 // methods answering with resp
+	switch verif.Choice("alsoARequest", 4) {
+	case 1:
+		c20AddMethod(svc, "Pay", money, c20Msg("PayResp", "receipt"))
+	case 2:
+		c20AddMethod(svc, "Move", address, address)
+	case 3:
+		c20AddMethod(svc, "Replace", resp, resp)
+		times = 2
+	}
 	file := verif.NewFile("acme/v1/order.proto", "acme.v1", "acmev1", "acme/v1/order")
 	file.Services, file.Messages = []*protogen.Service{svc}, []*protogen.Message{req, resp, address, money, item}
+	for _, mth := range svc.Methods[1:] {
+		if mth.Output != mth.Input && mth.Output != resp {
+			file.Messages = append(file.Messages, mth.Output)
+		}
+	}
 	p := &protogen.Plugin{Files: []*protogen.File{file}}
 	verif.Assert("C20/tree/accepted", NewWithOptions(p, Options{GenerateMock: true}).Generate() == nil)
 	mock := c20Find(verif.Trace(p), "_http_mock.pb.go")
@@ -56,7 +78,33 @@ func VerifC20MockTree() {
 			}
 		}
 		verif.Show("leaf", w)
-		verif.Assert("C20/tree/every-occurrence-of-a-message-type-is-filled", n == 1)
+		verif.Assert("C20/tree/every-occurrence-of-a-message-type-is-filled", n == times)
+	}
+	// every leaf the mock fills by looking up a declared example finds it in the emitted table
+	for _, key := range []string{"Money.currency", "Address.city"} {
+		used := c20Any(mock.Lines, `"`+key+`"`)
+		if key == "Money.currency" {
+			used = used && c20Any(mock.Lines, ".Currency = ")
+		} else {
+			used = used && c20Any(mock.Lines, ".City = ")
+		}
+		if !used {
+			continue
+		}
+		n := 0
+		for i, l := range mock.Lines {
+			if l == `"`+key+`": {` {
+				n++
+				first := "\"Paris\","
+				if key == "Money.currency" {
+					first = "\"USD\","
+				}
+				verif.Assert("C20/tree/example-table-lists-the-declared-examples", i+1 < len(mock.Lines) && mock.Lines[i+1] == first)
+			}
+		}
+		verif.Show("key", key)
+		verif.Assert("C20/tree/looked-up-example-key-is-in-the-emitted-table", n == 1)
+		verif.Reach("C20/tree/examples")
 	}
 	verif.Assert("C20/tree/nothing-reported-recursive", !c20Any(mock.Lines, "recursive message"))
 	verif.Reach("C20/tree/decided")
